@@ -35,7 +35,13 @@ interpreted over the byte-sequence model once per class new < old, new = old, ne
 one area changes, its contents normalise to old[..min] ++ zeros(new - min), its length is the requested size and
 equals the new data length, its start is untouched; on every error path nothing has changed (seeded change S22 resized
 in place *before* the collision scan had finished). Works for rebuild-and-copy as well as `Vec::resize`/`truncate` in
-place. **term** falls back to the path form of the loop variant when the MIR idiom is not recognised.""",
+place. **term** falls back to the path form of the loop variant when the MIR idiom is not recognised; a structurally
+recognised variant counts only when its update lies on every cycle through the loop header. **overlap** (round 5) is
+decided twice: over one generic area per ordering (sound and complete, 52 runs), and over exact one- and two-area lists
+(the colliding area alone, before and behind an unrelated or the resized area; 45 + 36 runs) walked in order by every
+iterator instance with the loops unrolled exactly, starting at every public function that reaches an area-adding
+function: no path adds an area / succeeds while a colliding area sits anywhere in the list (seeded change S50 stopped
+the resize scan at the resized area).""",
 "C12": """*As built (round 2).* **iterate**: the runner is interpreted per class of what the hook returned {Handled, Unhandled,
 Err} x {execution finished meanwhile or not}: Err ends the chain with the error, Handled or finished ends it with Ok,
 Unhandled goes on to the next hook. **guard** interprets private `&self` helpers inline (an extracted guard is the
@@ -86,10 +92,16 @@ its length is `p_filesz`), or the file bytes alone when the path ties the rounde
 split per program header visited. **round** (new): the zero area's length L(p_memsz) satisfies p_memsz ≤ L ≤ next page
 boundary for all 4 096 residues and representative page counts admitted by the path's own guards (seeded change S16).
 **others** (round 3): a program header decided not to be PT_LOAD changes neither permissions nor bytes of an area it did
-not create itself (seeded change S33, PT_GNU_RELRO at a PT_LOAD's address).""",
+not create itself (seeded change S33, PT_GNU_RELRO at a PT_LOAD's address). **symbols** (round 5) also orders the
+stores: a name that is not read from the string table (the synthetic `_start`) is never stored after the file's symbols
+unless the slot was tested first, so it cannot replace the file's own symbol at the entry address (seeded change S51).""",
 "C16": """*As built (round 2).* **arith** additionally carries relational slice/copy obligations (`bound <= length` must be
 tied on the path; seeded change S17: `data[..content.len()]` on a `vec![0; memsz]`), and **alloc** treats `vec![e; n]` like
-the zero-fill primitive.""",
+the zero-fill primitive. **alloc** (round 5) decides per allocation whether the size is bounded from above on the path:
+constants below 2^40 and quantities not read from the file are bounded; a file-controlled term is bounded when a
+dominating comparison puts it (or a sum containing it) below something bounded; `min` / `&` need one bounded side,
+`+ * | max` both; `!x` and an unguarded header field are not (seeded change S52 rounded the size up to `p_align`; the
+overflow guards of `checked_add` compare against constants near 2^64 and therefore do not count).""",
 "C17": """*As built (round 2).* Added **retry**: the error of creating the stack area at a candidate address is never the
 function's result (the search goes on) unless the very same (start, size) range was probed by a range predicate before
 (seeded change S18: probe with `length`, allocate `length + 8n`).""",
@@ -103,7 +115,8 @@ bounds-analysed accessors (decided for all endpoint orderings by C08.bounds + C0
 obligation discharged on every path of their function (pipe read: min(); trace: loop guard; mem_read_8: constant below
 the known length of the byte vector; resize: min() and the enumerate() index, the latter by a MIR slice because the path
 analysis widens it). Seeded change S19 (an unchecked `area.data[off..off+8]` fast path) is reported here as well as by
-the layering rules.""",
+the layering rules. **loops** (round 5): a counting loop's increment must lie on every cycle through the loop header
+(seeded change S53: a `continue` in the trace renderer skipped `i += 1`).""",
 }
 s = open('/verif/DESIGN.md').read()
 for pid, text in ASBUILT.items():
